@@ -1,1 +1,83 @@
+(* C06 — property theorems only: each closed by [exact], each followed by Print Assumptions. *)
 From Dastard Require Import Common.ZX C06.Model C06.Spec C06.Proofs.
+
+(* Over ALL configurations (any set of channels with / without projectors, any pre-existing run directories,
+   map loaded or not, any base path) and ALL histories of requests (START / STOP / PAUSE / UNPAUSE[ label] in
+   any spelling, malformed strings, label requests) interleaved with publishes:
+   - the model never panics and its observations pass the property checker of Spec.v;
+   - in every reachable state a publish of n records to channel ch adds n records to the file of type T
+     exactly when the REPORTED state says active, not paused, T enabled and ch eligible for T, else none;
+   - the directories of the successful STARTs are pairwise distinct and none existed before;
+   - a rejected request changes neither the reported state, nor the channels, nor the directory set;
+   - STOP succeeds, leaves no channel with a writer, and nothing open. *)
+Theorem reported_state_matches_behaviour :
+  forall (c : config) (ops : list op),
+    let s := fst (run (init c) ops) in
+    let h := combine ops (snd (run (init c) ops)) in
+    length (snd (run (init c) ops)) = length ops /\
+    C06_check (c_proj c) (c_used c) (rs (init c)) (map writers_of (chans (init c))) h = true /\
+    (forall ch n T, 0 <= ch < zlen (c_proj c) -> 0 < n ->
+       stored (snd (step s (PUB ch n))) T =
+         if expect_store (rs s) (nth (Z.to_nat ch) (c_proj c) false) T then n else 0) /\
+    (NoDup (start_dirs h) /\ forall d, In d (start_dirs h) -> is_used (c_used c) d = false) /\
+    (forall o q, is_request o = true -> snd (step s o) = OReq q -> o_ok q = false ->
+       rs (fst (step s o)) = rs s /\ chans (fst (step s o)) = chans s /\ used (fst (step s o)) = used s) /\
+    (forall r, classify (rq_str r) = KStop ->
+       exists q, snd (step s (WC r)) = OReq q /\ o_ok q = true /\ o_closed q = true /\
+                 active (rs (fst (step s (WC r)))) = false /\
+                 Forall (fun c => any_writer c = false) (chans (fst (step s (WC r))))).
+Proof. exact reported_state_matches_behaviour_full. Qed.
+Print Assumptions reported_state_matches_behaviour.
+
+(* The internal invariant behind it, for every reachable state: a channel holds a writer of type T iff the
+   reported state is active with T enabled and the channel is eligible, and every channel that holds a
+   writer carries exactly the reported pause flag. *)
+Theorem writers_match_reported_state :
+  forall (c : config) (ops : list op),
+    let s := fst (run (init c) ops) in
+    map hasproj (chans s) = c_proj c /\
+    Forall (fun ch => w22 ch = active (rs s) && t22 (rs s) /\
+                      w3 ch = active (rs s) && t3 (rs s) /\
+                      woff ch = active (rs s) && toff (rs s) && hasproj ch /\
+                      (any_writer ch = true -> cpaused ch = paused (rs s))) (chans s) /\
+    (active (rs s) = true ->
+       t22 (rs s) || t3 (rs s) || (toff (rs s) && existsb (fun b => b) (c_proj c)) = true) /\
+    (active (rs s) = true -> is_used (used s) (pat_base (rs s), pat_dir (rs s)) = true).
+Proof. exact reachable_inv. Qed.
+Print Assumptions writers_match_reported_state.
+
+(* What acceptance by the observable checker means for directories, independent of any model. *)
+Theorem checker_sound_fresh_directories :
+  forall proj h k, check_from proj k h = true ->
+    NoDup (start_dirs h) /\ forall d, In d (start_dirs h) -> is_used (k_used k) d = false.
+Proof. exact checker_dirs_fresh. Qed.
+Print Assumptions checker_sound_fresh_directories.
+
+(* START while writing is active is a rejected request (sources have at least one channel). *)
+Theorem start_while_active_rejected :
+  forall (c : config) (ops : list op) (r : wcreq),
+    c_proj c <> [] ->
+    let s := fst (run (init c) ops) in
+    active (rs s) = true -> classify (rq_str r) = KStart ->
+    exists q, snd (step s (WC r)) = OReq q /\ o_ok q = false.
+Proof. exact start_while_active_is_rejected. Qed.
+Print Assumptions start_while_active_rejected.
+
+(* The hypotheses above are met by a concrete non-trivial history (two STARTs with different type sets,
+   PAUSE, STOP; afterwards OFF-only writing stores on the channel with projectors and not on the other). *)
+Example reported_state_matches_behaviour_example :
+  let s := fst (run (init cfg_w) witness2) in
+  c_proj cfg_w <> [] /\ 0 <= 0 < zlen (c_proj cfg_w) /\
+  active (rs s) = true /\ stored (snd (step s (PUB 0 2))) OFF = 2 /\ stored (snd (step s (PUB 1 2))) OFF = 0 /\
+  start_dirs (combine witness2 (snd (run (init cfg_w) witness2))) = [(1, 0); (1, 1)].
+Proof. exact example_nontrivial. Qed.
+
+(* The code as it was before the fixes (SetOFF left the channel's pause flag set; START with a pixel map
+   loaded indexed the map at -1): the same histories fail the checker. *)
+Theorem reported_state_matches_behaviour_refuted_pre_fix :
+  check_old cfg_w witness1 = false /\ check_old cfg_w witness2 = false /\
+  nth 2 (snd (run_old (init cfg_w) witness1)) OPanic = OPub 0 0 0 false 0 /\
+  expect_store (rs (fst (run_old (init cfg_w) witness1))) true OFF = true /\
+  snd (run_old (init cfg_map) witness3) = [OPanic] /\ check_old cfg_map witness3 = false.
+Proof. exact refuted_before_fix. Qed.
+Print Assumptions reported_state_matches_behaviour_refuted_pre_fix.
